@@ -135,8 +135,13 @@ def stateful_decode(ctx, rep):
         s = g.session()
         render = {'dialect': 'new' if k % 2 else 'old', 'mark': ',' if k % 5 == 0 else '.'}
         evs = [e['in'] for e in s['events'] if e['in']['e'] in ('msg', 'junk')]
-        lines = [printer.line(ev, **render) if ev['e'] == 'msg' else ev['text'] for ev in evs]
+        # every third session mixes the two dialects line by line (programs linked against different libwayland versions
+        # writing to one stream): what a line denotes does not depend on its neighbours' dialect
+        rr = random.Random(k)
+        renders = [dict(render, dialect=rr.choice(['old', 'new'])) if k % 3 == 2 else render for _ in evs]
+        lines = [printer.line(ev, **rd) if ev['e'] == 'msg' else ev['text'] for ev, rd in zip(evs, renders)]
         want = [ev for ev in evs if ev['e'] == 'msg']
+        want_rd = [rd for ev, rd in zip(evs, renders) if ev['e'] == 'msg']
         S = e1.Session()
         got = []
 
@@ -149,7 +154,7 @@ def stateful_decode(ctx, rep):
                 i = len(got)
                 bad = fresh_aspects(message)
                 if i < len(want):
-                    bad += compare(want[i], render['dialect'], render['mark'], message, connection_id, want[i]['tag'] or 'PARSED')
+                    bad += compare(want[i], want_rd[i]['dialect'], want_rd[i]['mark'], message, connection_id, want[i]['tag'] or 'PARSED')
                 got.append(bad)
                 return S.cm.message(connection_id, message)
         try:
@@ -166,7 +171,7 @@ def stateful_decode(ctx, rep):
             if bad:
                 rep.violation('stateful:' + ','.join(sorted(set(bad))),
                               'message %d of a session (%r) leaves the decoder as %s, although the same line decodes correctly on its own'
-                              % (i + 1, printer.line(want[i], **render) if i < len(want) else '?', sorted(set(bad))),
+                              % (i + 1, printer.line(want[i], **want_rd[i]) if i < len(want) else '?', sorted(set(bad))),
                               {'kind': 'session-lines', 'lines': lines})
                 break
     rep.extra['messages_decoded_in_sessions'] = n
